@@ -125,6 +125,76 @@ func scenarioRoute() int {
 			break
 		}
 	}
+	// many destinations: one listener relays to a couple of hundred distinct next hops (one
+	// address, a port each), then to every one of them again, twice: each request arrives at
+	// the next hop its Route entry names, however many others the listener has sent to before
+	manyRelayed := 0
+	if prop == "C03" && run.Violations() <= 10 {
+		ndst := ev.Pick(150, 700)
+		hop := w.Hops[0]
+		type dst struct {
+			ep   *wire.UDPEndpoint
+			port int
+		}
+		var dsts []dst
+		for k := 0; k < ndst; k++ {
+			port := 20000 + k
+			ep, err := w.Net.UDP(fmt.Sprintf("many%d", k), fmt.Sprintf("%s:%d", hop.IP, port))
+			if err != nil {
+				continue
+			}
+			dsts = append(dsts, dst{ep, port})
+		}
+		p := wire.Path{UA: 0, Svc: g.R.Intn(len(w.Svcs)), Proto: "udp"}
+		type mc struct {
+			id   string
+			want string
+		}
+		for pass := 0; pass < 3 && run.Violations() <= 10; pass++ {
+			var sentCases []mc
+			order := g.R.Perm(len(dsts))
+			if pass == 0 {
+				for i := range order {
+					order[i] = i
+				}
+			}
+			for n0, di := range order {
+				d := dsts[di]
+				id := fmt.Sprintf("many%d-%d", pass, di)
+				m := wire.StdRequest(id, "OPTIONS", "sip:x@foreign.example", "udp", w.UAs[0].IP, wire.UDPPort)
+				wire.InsertBefore(m, "from", sip.Header{Name: "Route", Value: fmt.Sprintf("<sip:%s:%d;lr>", hop.IP, d.port)})
+				w.Send(p, m.Bytes(), id)
+				sentCases = append(sentCases, mc{id, fmt.Sprintf("many%d", di)})
+				if n0%32 == 31 {
+					w.Net.WaitCase(id, func(o []*wire.Obs) bool { return len(o) >= 1 }, w.BarrierWait)
+				}
+			}
+			if !w.Barrier(p) {
+				run.Inconclusive(1)
+				break
+			}
+			for _, c := range sentCases {
+				obs := w.Net.ForCase(c.id)
+				if len(obs) == 0 {
+					w.Net.WaitCase(c.id, func(o []*wire.Obs) bool { return len(o) >= 1 }, w.BarrierWait)
+					obs = w.Net.ForCase(c.id)
+				}
+				var at []string
+				for _, o := range obs {
+					at = append(at, o.Ep)
+				}
+				if len(obs) != 1 || obs[0].Ep != c.want {
+					run.Violation("a request routed to one of many next hops did not arrive exactly once at the hop its Route entry names", map[string]any{"pass": pass, "distinct_next_hops_of_the_listener": len(dsts), "expected_at": c.want, "observed_at": at, "case": c.id})
+					break
+				}
+				manyRelayed++
+				run.Eval(fmt.Sprintf("many-destinations|pass%d", pass))
+			}
+			w.Net.Trim()
+		}
+		run.Observe("distinct_udp_next_hops_of_one_listener", len(dsts))
+		run.Observe("requests_relayed_to_them", manyRelayed)
+	}
 	// late arrivals: anything that turned up after its case had been judged
 	w.Net.Drain()
 	for _, c := range cases {
@@ -329,6 +399,13 @@ func genRouteCase(w *wire.World, g *sip.Gen, i int) *routeCase {
 			}
 			text += ";lr>"
 			return wire.RouteEntry{Text: text, Host: "regex.verif.test", Port: port, Transport: ""}, "next:looks-like-a-service-name/none"
+		}
+		if len(sv.BeUDP) > 0 && g.R.Intn(10) == 0 {
+			// the next hop is the address of one of the listener's own backends: still a Route entry
+			// like any other (kept or stripped as configured, the request goes there)
+			be := sv.BeUDP[g.R.Intn(len(sv.BeUDP))]
+			tr := []string{"", "udp", "UDP"}[g.R.Intn(3)]
+			return routeEntry(g, be.IP(), wire.BackendPort, tr, true), "next:own-backend-address/" + map[bool]string{true: "none", false: "udp"}[tr == ""]
 		}
 		h := w.Hops[g.R.Intn(len(w.Hops))]
 		host := h.IP
